@@ -107,4 +107,16 @@ META = {
         "note": "Trusted: as C04; the linearization of writes is by construction of the model (one atomic apply per op) and checked, not separately proved.",
         "technique": "Lean 4 theorem over the interleaving invariant + forced-schedule correspondence with a linearizability oracle",
     },
+    "C08": {
+        "text": "For every tree of regular files below cas/ and every index the scan's orphaned / missing / corrupted / invalid lists are proved to be exactly the sets the property describes (repaired scan); clean-up unlinks are part of the interleaving invariant (never a referenced or in-commit blob). Completeness of clean-up and behaviour on real crash images and planted garbage are compared with the model and an independent directory/index comparison. " + _corr,
+        "design_ref": "DESIGN.md §7 C08",
+        "note": "Trusted: Lean kernel; Orphan.lean; regular files only; BLAKE3 implementations.",
+        "technique": "Lean 4 classification theorems over arbitrary file trees + interleaving invariant for clean-up + differential checks on planted garbage, crash images and forced schedules",
+    },
+    "C09": {
+        "text": "Sync-ordering protocol proved over the event scripts for all inputs: staged blob synced before rename into cas/, snapshot synced before it replaces index and segments pruned only after, each record written in one piece and synced before anything is deleted or acknowledged; power loss leaves fully synced files untouched. Composition with the record-level crash theorem gives the property per operation; whole-history composition is tied by rebuilding loss images from the REAL syscall trace (incl. sync events) at every cut and reopening them. " + _corr,
+        "design_ref": "DESIGN.md §7 C09",
+        "note": "Trusted: Lean kernel; the property's own loss model; fdatasync semantics; no real power loss can be run.",
+        "technique": "Lean 4 theorems on sync ordering in event scripts + power-loss image reconstruction from traced syscalls",
+    },
 }
